@@ -19,7 +19,7 @@ BASE_CONSTS = {
     "NL": 0, "RejectSample": 0, "KeepHist": False, "GenDepth": 0, "GenDir": ".", "KindBag": ("<-", "BagDefault"),
     "Tmax": 7, "Jump": 2, "MaxAuc": 1, "CreateUntil": 1, "StartOffsets": {1}, "Dur": 2, "Templates": {"B1"}, "Bidders": {"u2", "u3"},
     "Prices": {1, 2}, "Amts": {1, 3}, "CapSet": {5}, "MaxBids": 2, "MaxMods": 1, "MaxDon": 0,
-    "WithInvalid": False, "WithGenesis": False, "HookVariants": False, "Faults": {0}, "WithQueries": False,
+    "WithInvalid": False, "WithGenesis": False, "HookVariants": False, "Faults": {0}, "WithQueries": False, "WithParams": False,
 }
 
 
@@ -69,6 +69,8 @@ TC_CANCEL_Q = mc("TC_Cancel_q", Templates={"F0", "B0"}, MaxAuc=1, Amts={1}, Pric
                  StartOffsets={1, 2}, CreateUntil=1, WithInvalid=False)
 TC_MULTI_Q = mc("TC_Multi_q", Templates={"F0"}, MaxAuc=2, Amts={2}, Prices={2}, MaxBids=2, Tmax=3, Jump=2, CapSet={3, 5}, StartOffsets={0},
                 CreateUntil=1, Bidders={"u2"})
+TC_MULTIB_Q = mc("TC_MultiB_q", Templates={"B0"}, MaxAuc=2, Amts={2, 3}, Prices={2}, MaxBids=2, Tmax=4, Jump=3, CapSet={2, 5}, StartOffsets={0},
+                 CreateUntil=1, Bidders={"u2"})
 GEN_GENERAL = [
     gen("sysA", 110, 40, Templates={"B0", "B1", "B2", "F0", "F1", "F3"}, MaxAuc=2, Prices={1, 2, 3}, Amts={1, 2, 3, 5, 8},
         CapSet={3, 5, 10}, MaxBids=6, MaxDon=2, Tmax=24, Jump=3, CreateUntil=6, StartOffsets={0, 1, 2}, Dur=3, WithInvalid=True, WithGenesis=False),
@@ -89,6 +91,22 @@ GEN_MANY = [
 ]
 
 
+GEN_LONG = [
+    gen("vest100", 16, 60, D=100, Templates={"F100", "B100"}, MaxAuc=2, Prices={50, 100, 150}, Amts={1, 7, 20}, CapSet={30, 50}, MaxBids=4,
+        Tmax=260, Jump=45, CreateUntil=3, StartOffsets={0, 1}, Dur=3, KindBag=("<-", "BagBids")),
+    gen("ext30", 16, 90, Templates={"B30"}, MaxAuc=1, Prices={1, 2, 3}, Amts={1, 2, 3}, CapSet={5, 20}, MaxBids=8, Tmax=60, Jump=1,
+        CreateUntil=1, StartOffsets={0}, Dur=2, KindBag=("<-", "BagBids")),
+    gen("ext30p0", 16, 90, Templates={"B30"}, MaxAuc=1, Prices={1, 2, 3}, Amts={1, 2, 3}, CapSet={5, 20}, MaxBids=8, Tmax=20, Jump=1,
+        CreateUntil=1, StartOffsets={0}, Dur=2, KindBag=("<-", "BagBids"), Params0=("<-", "ParamsNoFee")),
+]
+GEN_PARAMS = [
+    gen("paramsA", 60, 40, Templates={"B0", "B1", "B2", "F0", "F1"}, MaxAuc=2, Prices={1, 2, 3}, Amts={1, 2, 3, 5}, CapSet={3, 5, 10}, MaxBids=5,
+        Tmax=24, Jump=3, CreateUntil=6, StartOffsets={0, 1, 2}, Dur=3, WithInvalid=True, WithParams=True),
+    gen("paramsB", 60, 40, Templates={"B0", "B2", "F1"}, MaxAuc=2, Prices={1, 2, 3}, Amts={1, 2, 3, 5}, CapSet={3, 5, 10}, MaxBids=5,
+        Tmax=24, Jump=3, CreateUntil=6, StartOffsets={0, 1, 2}, Dur=3, WithInvalid=True, WithParams=True, Params0=("<-", "ParamsPayFee")),
+]
+
+
 def scale(gens, f):
     out = []
     for g in gens:
@@ -100,7 +118,7 @@ def scale(gens, f):
 
 PLANS = {
     "C01": dict(mc=[MC_BATCH_Q, MC_FIXED_Q], gen=GEN_GENERAL),
-    "C02": dict(mc=[MC_BATCH_Q, MC_FIXED_Q], gen=GEN_GENERAL, tc=[TC_EXT_Q, TC_CANCEL_Q], tc_max=2500),
+    "C02": dict(mc=[MC_BATCH_Q, MC_FIXED_Q], gen=GEN_GENERAL + GEN_PARAMS, tc=[TC_EXT_Q, TC_CANCEL_Q], tc_max=2500),
     "C03": dict(mc=[MC_BATCH_Q], gen=GEN_GENERAL),
     "C04": dict(mc=[MC_BATCH_Q, MC_FIXED_Q], gen=GEN_GENERAL, tc=[TC_BATCH_Q, TC_FIXED_Q, TC_FIXEDI_Q], tc_max=2000),
     "C05": dict(mc=[MC_BATCH_Q, MC_FIXED_Q], gen=GEN_GENERAL),
@@ -108,18 +126,18 @@ PLANS = {
     "C07": dict(mc=[MC_LIFE_Q, MC_LIFE2_Q],
                 gen=GEN_GENERAL + [dict(g, name=g["name"] + "F", consts=dict(g["consts"], Faults={0, 1, 2, 3, 5, 8})) for g in GEN_MANY]),
     "C08": dict(mc=[MC_LIFE_Q, MC_LIFE2_Q], gen=GEN_GENERAL),
-    "C09": dict(mc=[MC_LIFE_Q, MC_LIFE2_Q], gen=GEN_GENERAL),
+    "C09": dict(mc=[MC_LIFE_Q, MC_LIFE2_Q], gen=GEN_GENERAL + GEN_LONG[:1]),
     "C10": dict(mc=[MC_INVALID1_Q, MC_INVALIDF_Q], gen=GEN_GENERAL),
     "C11": dict(mc=[MC_BATCH_Q], gen=GEN_GENERAL, tc=[TC_MODIFY_Q], tc_max=4000),
     "C12": dict(mc=[MC_INVALID1_Q, MC_INVALIDF_Q], gen=GEN_GENERAL, tc=[TC_CANCEL_Q], tc_max=2500),
-    "C13": dict(mc=[MC_BATCH_Q], gen=GEN_GENERAL, tc=[TC_EXT_Q], tc_max=12000),
+    "C13": dict(mc=[MC_BATCH_Q], gen=GEN_GENERAL + GEN_LONG[1:] + GEN_PARAMS[:1], tc=[TC_EXT_Q], tc_max=12000),
     "C15": dict(mc=[MC_GENESIS_Q], gen=[dict(g, consts=dict(g["consts"], WithGenesis=True, KindBag=("<-", "BagGenesis"),
                                                  Templates=set(g["consts"]["Templates"]) | {"Bx"})) for g in GEN_GENERAL]),
     "C16": dict(mc=[MC_BATCH_Q, MC_FIXED_Q], tc=[TC_EXT_Q], tc_max=2500,
                 gen=GEN_GENERAL + [dict(g, name=g["name"] + "Q", consts=dict(g["consts"], WithQueries=True, KindBag=("<-", "BagQueries")))
                                    for g in scale(GEN_GENERAL, 0.6)]),
-    "C18": dict(mc=[MC_INVALID1_Q, MC_INVALIDF_Q], gen=GEN_GENERAL),
-    "C19": dict(mc=[MC_MULTI_Q], gen=GEN_GENERAL, tc=[TC_MULTI_Q], tc_max=2500),
+    "C18": dict(mc=[MC_INVALID1_Q, MC_INVALIDF_Q], gen=GEN_GENERAL + GEN_PARAMS),
+    "C19": dict(mc=[MC_MULTI_Q], gen=GEN_GENERAL, tc=[TC_MULTI_Q, TC_MULTIB_Q], tc_max=4000),
 }
 
 
